@@ -51,6 +51,21 @@ pub fn check_encoding(c: &Case, rep: &mut Report) {
         return;
     }
     let dts = m["production_datatypes"].as_array().cloned().unwrap_or_default();
+    // terminal numbering of the analysis: order of first occurrence in the productions, identity =
+    // (text, raw or not, lookahead), first user token = 5 (own walk, not parol's helper)
+    let mut ident: Vec<(String, bool, String)> = vec![];
+    let term_id = |s: &Symbol| -> Option<(String, bool, String)> {
+        if let Symbol::T(parol::Terminal::Trm(t, k, _, _, _, _, l)) = s { Some((t.clone(), matches!(k, parol::TerminalKind::Raw), format!("{l:?}"))) } else { None }
+    };
+    for p in gc.cfg.pr.iter() {
+        for s in p.get_r() {
+            if let Some(id) = term_id(s) {
+                if !ident.contains(&id) {
+                    ident.push(id);
+                }
+            }
+        }
+    }
     for (pi, p) in gc.cfg.pr.iter().enumerate() {
         let lhs = mnts.iter().position(|n| *n == p.get_n()).unwrap_or(usize::MAX);
         let mp = &mprods[pi];
@@ -59,8 +74,8 @@ pub fn check_encoding(c: &Case, rep: &mut Report) {
         }
         let mrhs: Vec<(bool, usize)> = mp["rhs"].as_array().map(|a| a.iter().map(|s| if let Some(n) = s.get("NonTerminal") { (false, u(n)) } else { (true, u(&s["Terminal"]["index"])) }).collect()).unwrap_or_default();
         // shape against the grammar
-        let shape: Vec<(bool, Option<usize>)> = p.get_r().iter().map(|s| match s { Symbol::N(n, ..) => (false, mnts.iter().position(|x| x == n)), _ => (true, None) }).collect();
-        if mrhs.len() != shape.len() || mrhs.iter().zip(shape.iter()).any(|(a, b)| a.0 != b.0 || (!a.0 && Some(a.1) != b.1)) {
+        let shape: Vec<(bool, Option<usize>)> = p.get_r().iter().map(|s| match s { Symbol::N(n, ..) => (false, mnts.iter().position(|x| x == n)), _ => (true, term_id(s).and_then(|id| ident.iter().position(|x| *x == id)).map(|i| i + 5)) }).collect();
+        if mrhs.len() != shape.len() || mrhs.iter().zip(shape.iter()).any(|(a, b)| a.0 != b.0 || Some(a.1) != b.1) {
             bad(rep, "model-production-rhs", format!("export model production {pi} rhs {mrhs:?} does not match {p}"));
         }
         let push = p.2 == parol::grammar::ProductionAttribute::AddToCollection;
